@@ -17,12 +17,12 @@ func (x *fnCtx) lockLayer() bool {
 func lockArr(h *Heap) *Term { return hget(h, "$lock", ArrSort(SInt, SInt)) }
 
 func (x *fnCtx) lockHeld(env *specEnv, l *Val, mode int64) *Term {
+	if !x.lockLayer() {
+		return True // sequential pass: lock operations are no-ops
+	}
 	id := l.L[0]
 	cur := Select(lockArr(env.heap), id)
-	if mode == 2 {
-		return Eq(cur, IntLit(2))
-	}
-	return Ge(cur, IntLit(1))
+	return Eq(cur, IntLit(mode))
 }
 
 // typeSpecOf finds the //@ type block for a named struct type.
